@@ -7,12 +7,37 @@ from . import pat as P
 from .facts import AnchorMissing, PRODUCTION_CRATES
 
 
+def private_helper(body, keep):
+    """predicate for inline.expand: a non-`pub`, inherent (not a trait impl) function of the same crate — and, for methods, of the same
+    type — that the rule module does not name as an anchor (`keep`): such a helper is part of the function it was extracted from"""
+    def f(callee, t):
+        if callee.crate != body.crate or callee.d.get("impl_trait"):
+            return False
+        if (callee.d.get("vis") or "pub") == "pub":
+            return False
+        if callee.name in keep:
+            return False
+        if body.d.get("impl_self") and callee.d.get("impl_self") and callee.d.get("impl_self") != body.d.get("impl_self"):
+            return False
+        return True
+    return f
+
+
 class MethodView:
-    def __init__(self, ck, rx, crate=None, inline=None):
+    def __init__(self, ck, rx, crate=None, inline=None, keep=None):
+        """keep: names of callees the rule module anchors on; when given (even empty), every other private helper of the same crate /
+        type is expanded in place first (rules/inline.py), so an extracted helper does not change the verdict"""
         self.ck = ck
         self.prog = ck.prog
         self.body = ck.prog.one(rx, crate)
         ck.saw(self.body)
+        self.expanded = []
+        if keep is not None:
+            from . import inline as _inl
+            self.body, self.expanded = _inl.expand(ck.prog, self.body, private_helper(self.body, set(keep)))
+            for p in self.expanded:
+                for b in ck.prog.by_path.get(p.split(" ")[0], []):
+                    ck.saw(b)
         self.ev = T.Evaluator(ck.prog, inline=inline)
         self.fr = self.ev.frame(self.body)
         self.effects = self.fr.effects()
@@ -91,10 +116,37 @@ class MethodView:
             if b["cleanup"]:
                 continue
             for s in b["s"]:
-                if "d" in s and s["d"]["l"] == 1 and s["d"]["p"]:
+                if "d" in s and s["d"]["p"] and self._is_self(s["d"]["l"]):
                     names = [p["n"] for p in s["d"]["p"] if isinstance(p, dict) and "f" in p]
                     if names and names[0] == field:
                         out.append((bi, self.fr.rvalue_term(s["r"])))
+        return out
+
+    def _is_self(self, local):
+        """the local is the method's `self` parameter, or (after helper expansion) a helper's own `self` bound to it"""
+        if local == 1:
+            return True
+        if local <= self.body.argc:
+            return False
+        try:
+            t = P.norm(self.fr.local_term(local))
+        except Exception:
+            return False
+        while isinstance(t, tuple) and t and t[0] == "upd":   # `self` after earlier field stores is still `self`
+            t = P.norm(t[2])
+        return t == self.param(1)
+
+    def self_field_writes(self):
+        """[(bb, [field names])] of every direct assignment through `self` (own or an expanded helper's)"""
+        out = []
+        for bi, b in enumerate(self.body.blocks):
+            if b["cleanup"]:
+                continue
+            for s in b["s"]:
+                if "d" in s and s["d"]["p"] and self._is_self(s["d"]["l"]):
+                    names = [p["n"] for p in s["d"]["p"] if isinstance(p, dict) and "f" in p]
+                    if names:
+                        out.append((bi, names))
         return out
 
 
